@@ -145,6 +145,18 @@ func VerifyUnit(ld *Loaded, u *FuncUnit, cfg *Config) (res *UnitResult) {
 		}
 		x.curProps = u.C.Props
 	}
+	if u.C.Partial {
+		// partial contract: only its assertions are decided; the function's other obligations are
+		// not generated (and the function is reported as partially verified)
+		var keep []*Obligation
+		for _, o := range x.obls {
+			if o.Kind == "assert" || o.Kind == "cover" {
+				keep = append(keep, o)
+			}
+		}
+		x.obls = keep
+		x.assumed["partial contract of "+u.Pkg.Name+"."+u.Key+": only the listed assertions are decided, the function's other obligations (bounds, nil, callee preconditions) are not generated"] = true
+	}
 	res.Obls = x.obls
 	for _, o := range res.Obls {
 		o.x = x
